@@ -23,6 +23,8 @@ Pfst.C06.c2b_mono
 Pfst.C06.c2b_ascii
 Pfst.C06.b2c_inside
 Pfst.C06.b2c_bracket
+Pfst.C06.paramsOffset_dcol_single
+Pfst.C06.paramsOffset_col
 Pfst.C06.reMatch_code_iff
 Pfst.C06.reMatch_iff
 Pfst.C06.nextFrag_spec
@@ -73,6 +75,9 @@ TRUSTED = [
     'virtual fields (_args, _bases, _attrs, Dict/MatchMapping/Compare _all, _body, decorator_list, targets incl. `=`, ifs '
     'incl. `if`, ...) are judged by the token oracle on fresh trees; not judged: arguments._all, Global/Nonlocal names, '
     'kwd_attrs, Dict.keys, cases, elements inside f-strings',
+    'fst_core._params_offset (byte position / deltas of a source put) is modelled on the text itself (paramsOffsetC) and compared on '
+    'generated multi-line, mixed-width line blocks x every span; locations are judged after replace() / remove() of every element of a '
+    'deterministic layout product (text before the span ASCII / multi-byte x element one line / several lines x container),',
     'bloc end column of block statements (loc + trailing line comment) is modelled (blocEndCol) and compared on fresh trees '
     'and after every step of a line-comment edit chain with all caches filled beforehand',
     'not modelled (checked only by the CPython-judged sweep): _loc_op, _loc_arguments, _loc_comprehension, _loc_withitem, '
@@ -1077,6 +1082,12 @@ def _edit_prog_inner(arg):
             chains.append((i, [('put_docstr', 'new', ('doc é\nsecond line',), {}), ('put_docstr', 'replace', ('x',), {}),
                                ('put_docstr', 'delete', (None,), {})]))
     for i in exprs:
+        fi = fl0[i]
+        if fi.pfield is not None and fi.pfield.idx is not None and fi.parent is not None:
+            # structural edits of one element: the span replaced may cover several lines, the text put one (and v.v.)
+            chains.append((i, [('replace', 'one-line', ('X',), {})]))
+            chains.append((i, [('replace', 'multi-line', ('[é,\n  y]',), {})]))
+            chains.append((i, [('remove', '', (), {})]))
         chains.append((i, [('par', 'force', (True,), {}), ('unpar', '', (), {})]))
         chains.append((i, [('unpar', 'only', (), {})]))
     # whitespace-only put_src(action='offset') at a few token gaps
@@ -1213,10 +1224,35 @@ def _corr_bloc(arg):
     return {'cases': out}
 
 
+def span_layout_sources():
+    """deterministic product for edits whose replaced span covers several lines: text before the span on its first
+    line (ASCII / multi-byte) x the element (one line / several lines ending in an ASCII or a multi-byte line) x the
+    container, always with further nodes after the span on its last line"""
+    pres = ['"aaa"', '"ééé"', 'ü日']
+    elems = ['[1,\n  2]', '[1,\n  "é"]', '(b)', 'g(\n)', '"""s\nt"""', '{1: é,\n 2: 3}']
+    out = []
+    for pre in pres:
+        for el in elems:
+            out.append(f'r = [{pre}, {el}, tail, other]')
+            out.append(f'r = f({pre}, {el}, tail, k=other)')
+            out.append(f'é = {pre}; r = ({el}, tail); z = other')
+            out.append(f'if {pre} and {el} and tail: pass  # c')
+            out.append(f'r = {{{pre}: {el}, tail: other}}')
+    ok = []
+    for p in out:
+        try:
+            ast.parse(p)
+            ok.append(p)
+        except SyntaxError:
+            pass
+    return ok
+
+
 def _run_edits(ctx, n, max_stmt, max_expr):
     rng = random.Random(ctx.rng.random())
-    srcs = edit_sources(rng, n)
-    res = pmap(_edit_prog, [(p, max_stmt, max_expr) for p in srcs])
+    layout = span_layout_sources()
+    srcs = layout + edit_sources(rng, n)
+    res = pmap(_edit_prog, [(p, 3, 40) for p in layout] + [(p, max_stmt, max_expr) for p in srcs[len(layout):]])
     seen = set()
     for p, r in zip(srcs, res):
         ctx.count('edit:' + p, r['nontrivial'] > 0, max(1, r['checks']))
@@ -1359,6 +1395,32 @@ def correspondence(ctx):
         ctx.sample({'corr': 'scanners', 'lines': [''.join(map(chr, l)) for l in last[0]['lines']], 'f': last[0]['f'],
                     'q': last[0]['qs'][:2], 'impl': last[1][:2]})
     ctx.notes['scanner_blocks'] = len(blocks)
+    # (2a) _params_offset on the text itself: multi-line spans, multi-byte text on the first / last line independently
+    from fst.fst_core import _params_offset
+    prng = random.Random(ctx.rng.random())
+    pool = ['a', ' ', '(', 'é', '日', '😀', 'b,']
+    pcases, pimpl = [], []
+    line_kinds = [lambda: ''.join(prng.choice(['a', ' ', 'b', '(']) for _ in range(prng.randint(0, 6))),
+                  lambda: ''.join(prng.choice(pool) for _ in range(prng.randint(0, 6)))]
+    for _ in range(150 if q else 2500):
+        lines = [prng.choice(line_kinds)() for _ in range(prng.randint(1, 3))]
+        put = [prng.choice(line_kinds)() for _ in range(prng.choice([1, 1, 1, 2]))]
+        qs, r = [], []
+        for ln in range(len(lines)):
+            for eln in range(ln, len(lines)):
+                for col in range(len(lines[ln]) + 1):
+                    for ecol in range(len(lines[eln]) + 1):
+                        if ln == eln and ecol < col:
+                            continue
+                        po = _params_offset(lines, put, ln, col, eln, ecol)
+                        qs.append([ln, col, eln, ecol])
+                        r.append([po[0], po[1], po[2], po[3]])
+        pcases.append({'f': 'C06.params_offset', 'lines': c06_scan.enc_lines(lines), 'put': c06_scan.enc_lines(put), 'qs': qs})
+        pimpl.append(r)
+    try:
+        _diff_batches(ctx, 'fst_core._params_offset vs Pfst.Scan.paramsOffsetC', pcases, pimpl, ctx.lean(pcases), lambda a: True)
+    except Exception as e:
+        ctx.brk('correspondence', '_params_offset', f'driver error: {e}')
     # (2b) bloc end column (loc + trailing comment extent) on fresh and comment-edited trees
     srcs = edit_sources(random.Random(ctx.rng.random()), 20 if q else 300)
     res = pmap(_corr_bloc, [(p, 4 if q else 10) for p in srcs])
